@@ -30,6 +30,9 @@ def scenarios(ctx: Ctx, res: Result):
     for sc in outage_family():
         res.count('outage_family')
         yield sc
+    for sc in gc.finish_only_backlog_family():
+        res.count('finish_only_backlog_family')
+        yield sc
     for sc in gc.repeated_failure_family():
         res.count('repeated_failure_family')
         yield sc
